@@ -643,7 +643,7 @@ for _p in ('C01', 'C05', 'C10', 'C13', 'C18'):
 _SKE_THEOREMS = ['FV.Tie.Message_MarshalMsg_is_model', 'FV.Tie.Message_EncodeMsg_is_model', 'FV.Tie.MessageExt_MarshalMsg_is_model',
                  'FV.Tie.MessageExt_EncodeMsg_is_model', 'FV.Tie.Forward_MarshalMsg_is_model', 'FV.Tie.Forward_EncodeMsg_is_model',
                  'FV.Tie.Packed_MarshalMsg_is_model', 'FV.Tie.Packed_EncodeMsg_is_model'] + [
-    f'FV.Tie.{t}_{m}_is_model' for t in ('Entry', 'EntryExt', 'Ping', 'Pong', 'Ack', 'HeloOpts', 'Helo') for m in ('MarshalMsg', 'EncodeMsg')]
+    f'FV.Tie.{t}_{m}_is_model' for t in ('Entry', 'EntryExt', 'EntryList', 'Ping', 'Pong', 'Ack', 'HeloOpts', 'Helo') for m in ('MarshalMsg', 'EncodeMsg')]
 _SKE_TEXT = (" Regenerated tie for the encoders: the bodies of MarshalMsg / EncodeMsg of Message, MessageExt, PackedForwardMessage, Entry, EntryExt, "
              "Ping, Pong, AckMessage, HeloOpts, Helo (msgp-generated) and ForwardMessage (hand-written) are re-read from /repo's working tree on every run (Gen/Codec.lean, `.unknown` for anything "
              "unrecognised) and T_MarshalMsg_is_model / T_EncodeMsg_is_model (Tie/CodecEnc.lean) prove that running the regenerated body on a "
@@ -664,13 +664,15 @@ for _p in ('C01', 'C02', 'C03', 'C05', 'C12'):
 
 # ---- the msgp-generated map decoders (MessageOptions, AckMessage, HeloOpts, Helo with its inlined options): key loop + switch regenerated,
 # proved equal to the models' readFields over their handler tables by induction on the number of keys (Tie/CodecMap.lean)
-_SKM_THEOREMS = [f'FV.Tie.{t}_{m}_is_model' for t in ('MessageOptions', 'AckMessage', 'HeloOpts', 'Helo') for m in ('UnmarshalMsg', 'DecodeMsg')] + [
-    'FV.Tie.loopN_eq_readFields']
+_SKM_THEOREMS = [f'FV.Tie.{t}_{m}_is_model' for t in ('MessageOptions', 'AckMessage', 'HeloOpts', 'Helo', 'EntryList') for m in ('UnmarshalMsg', 'DecodeMsg')] + [
+    'FV.Tie.loopN_eq_readFields', 'FV.Tie.mapEl_eq_readEntries']
 _SKM_TEXT = (" The msgp-generated map decoders (MessageOptions, AckMessage, HeloOpts, Helo with its inlined options decoder) are tied the same way: "
              "the key loop `for n > 0 { n--; key; switch key { case …; default: Skip } }` is a statement of the skeleton language (Stmt.mapLoop), and "
              "loopN_eq_readFields proves by induction on the number of keys that it is the model's readFields over the handler table, given that one pass "
-             "of the regenerated switch does what the table's handler for that key does (T_step, by cases on the key).")
-for _p in ('C01', 'C04', 'C05', 'C10', 'C13'):
+             "of the regenerated switch does what the table's handler for that key does (T_step, by cases on the key). EntryList (header, resize, "
+             "`for i := range *z { body }`): mapEl_eq_readEntries proves by induction over the elements that one pass of the regenerated body per "
+             "element is the model's readEntries, whatever the elements held before; its encoders (header from len(z), body per element) by eloop_entries.")
+for _p in ('C01', 'C03', 'C04', 'C05', 'C10', 'C13', 'C18'):
     PROPS[_p]['translator'] = True
     PROPS[_p]['lean_modules'] = PROPS[_p]['lean_modules'] + ['FluentVerif.Tie.CodecMap']
     PROPS[_p]['theorems'] = PROPS[_p]['theorems'] + _SKM_THEOREMS
